@@ -1,4 +1,4 @@
-\* thorough tier, energies: <= 6 nodes, <= 6 edges, <= 2 targets
+\* thorough tier, energies: <= 3 reactions, <= 5 nodes, <= 5 edges, <= 2 targets
 SPECIFICATION Spec
 CONSTANTS
   Networks <- MCNetsSpanBig
